@@ -857,7 +857,7 @@ class Glob(Generic[AnyStr]):
                                 for match, is_dir in self._glob(start, this, rest):
                                     if not self._is_excluded(match, is_dir):
                                         yield from self._format_path(match, is_dir, dir_only)
-                            elif not self._is_excluded(start, is_dir):
+                            elif self._lexists(start) and not self._is_excluded(start, is_dir):
                                 yield from self._format_path(start, is_dir, dir_only)
                     else:
                         # Return the file(s) and finish.
